@@ -1,4 +1,4 @@
-CONSTANTS Wide = TRUE MaxExtra = 1 Mixture = FALSE
+CONSTANTS Decomp = FALSE Wide = TRUE MaxExtra = 1 Mixture = FALSE
 SPECIFICATION Spec
 INVARIANT Inv_C13Design
 CHECK_DEADLOCK FALSE
